@@ -296,5 +296,31 @@ PROPS["C20"] = {
     "technique": "Coq proof over the copy-loop / view models + differential against the real binary (hash of tool output, directory before/after)",
 }
 
+PROPS["C04"] = {
+    "jobs": [{"cmd": "crash", "quick": 80, "thorough": 2400, "binary": True, "timeout": 9000},
+             iso_job(40, 1200),
+             {"cmd": "viso", "quick": 10, "thorough": 600, "timeout": 3000},
+             {"cmd": "enc", "quick": 30, "thorough": 1500, "timeout": 3000},
+             {"cmd": "tools", "quick": 12, "thorough": 300, "binary": True, "timeout": 6000}],
+    "rule": "job crash: the real binary (under an 8 GB address-space limit) serves a root of crafted content - 26 PARAM.SFO variants (truncated, bad magic, counts and "
+            "offsets up to 2^32-1, TITLE_ID lengths 0,1,3,4,31,32,33,200, non-ASCII), 19 region-table variants (sizes 0..2047, counts 0,1,256,300,2^31,2^32-1, "
+            "reversed/overlapping/beyond-EOF regions, partial tail) each with one of 8 key-file variants and as 3k3y twins, 3k3y areas cut at 9 lengths, keys and "
+            "images that are directories, names of 255 bytes / invalid UTF-8, 60 levels of nesting, 1200 entries in a directory, symlink loops - to sessions of six "
+            "kinds in turn (every crafted file with reads at offsets up to 2^64-1 and lengths up to 2^32-1, every directory through ***PS3***/***DVD***, listings "
+            "and sizes, requests without an open object, bit-flipped/truncated valid sessions, random bytes; round-robin so that every object is visited); after "
+            "each session: process alive, fresh connection served, bystander connection served; the last quarter of the cases gives the same content to make-iso "
+            "and decrypt; jobs iso/viso/enc/tools: panics caught inside the library-level jobs count here as well",
+    "assumptions": ["a crash is observed as process exit, refusal of new connections, silence of the bystander, a Go traceback or exit status > 1 of a tool",
+                    "memory exhaustion is observed through the 8 GB address-space limit"],
+    "partial": ["Go panics have no counterpart in the total Coq models: the theorems show that the modelled guards make the panicking operations unreachable in the "
+                "byte-exact models (encoder widths, region count, window slicing, stream consumption); nil dereferences, slice bounds outside the modelled "
+                "arithmetic and the runtime itself are covered by the crash job only",
+                "sfoField (PARAM.SFO parsing) is not modelled: exercised with 26 crafted variants against the real server and make-iso"],
+    "level_text": "Theorems C04_any_stream (every byte stream is handled to its end in length/16+1 steps), C04_malformed, C04_image_reads, C04_encrypted_reads (all offsets "
+                  "and lengths stay inside the buffers), C04_builder_errors, C04_builder_fields (every fixed-width encoder receives a value that fits, every tree and "
+                  "name), C04_region_table (count-driven allocation bounded), plus the crash job against the real binary.",
+    "technique": "Coq proof that the panicking operations are unreachable in the byte-exact models + hostile-input runs of the real binary with liveness probes",
+}
+
 # properties not registered yet, with the reason shown in MANIFEST.not_applicable
 NOT_YET = {}
